@@ -576,11 +576,10 @@ def lookup_prefix(name):
 def _cvt(src_eb, dst_eb, signed, how, masked=False, scalar=False):
     def h(I, ins, args, cond):
         x = args[0]
+        pt = k = None
         if masked:
             pt, k = args[1], args[2]
-            if not T.all_ones(k):
-                return NotImplemented
-            if len(args) > 3 and not (args[3][0] == "const" and args[3][2] == 4):
+            if len(args) > 3 and not (args[3][0] == "const" and args[3][2] in ((4, 8) if how == "trunc" else (4,))):
                 return NotImplemented
         if scalar:
             return T.op("x86.cvt", dst_eb, T.slice_(x, 0, src_eb), int(signed), how)
@@ -593,6 +592,10 @@ def _cvt(src_eb, dst_eb, signed, how, masked=False, scalar=False):
                 out.append(T.op("x86.cvt", dst_eb, T.slice_(x, i * src_eb, src_eb), int(signed), how))
             else:
                 out.append(T.const(dst_eb, 0))
+        if masked and not T.all_ones(k):
+            # write-masking: lane i = k[i] ? converted : passthrough (lanes beyond the source stay zero)
+            out = [T.select(T.slice_(k, i, 1), out[i], T.slice_(pt, i * dst_eb, dst_eb)) if i < n_in else out[i]
+                   for i in range(n_out)]
         return T.concat(out)
     return h
 
@@ -771,3 +774,53 @@ for _w in ("128", "256", "512"):
         TABLE["llvm.x86.avx512.permvar.%s.%s" % (_s, _w)] = _permvar(_eb)
 TABLE["llvm.x86.avx2.permd"] = _permvar(32)
 TABLE["llvm.x86.avx2.permps"] = _permvar(32)
+
+
+TABLE["llvm.x86.avx512.mask.cvtps2dq.512"] = _cvt(32, 32, True, "rint", masked=True)
+TABLE["llvm.x86.avx512.mask.cvtps2dq.256"] = _cvt(32, 32, True, "rint", masked=True)
+TABLE["llvm.x86.avx512.mask.cvtps2dq.128"] = _cvt(32, 32, True, "rint", masked=True)
+TABLE["llvm.x86.avx512.mask.cvtpd2dq.512"] = _cvt(64, 32, True, "rint", masked=True)
+TABLE["llvm.x86.avx512.mask.cvtpd2dq.128"] = _cvt(64, 32, True, "rint", masked=True)
+TABLE["llvm.x86.avx512.mask.cvttpd2dq.128"] = _cvt(64, 32, True, "trunc", masked=True)
+TABLE["llvm.x86.avx.cvt.pd2dq.256"] = _cvt(64, 32, True, "rint")
+TABLE["llvm.x86.sse2.cvtpd2dq"] = _cvt(64, 32, True, "rint")
+for _w in ("128", "256", "512"):
+    TABLE["llvm.x86.avx512.mask.cvtpd2qq." + _w] = _cvt(64, 64, True, "rint", masked=True)
+    TABLE["llvm.x86.avx512.mask.cvtps2qq." + _w] = _cvt(32, 64, True, "rint", masked=True)
+    TABLE["llvm.x86.avx512.mask.cvttps2qq." + _w] = _cvt(32, 64, True, "trunc", masked=True)
+
+
+# VPMOVSQD etc.: signed saturating down-conversion, write-masked; the upper part of a 128-bit result is zero
+def _pmovs(src_eb, dst_eb):
+    def h(I, ins, args, cond):
+        x, pt, k = args
+        n_in = x[1] // src_eb
+        n_out = ins["t"]["n"]
+        out = []
+        for i in range(n_out):
+            if i < n_in:
+                v = T.saturate("ss", T.slice_(x, i * src_eb, src_eb), dst_eb)
+                if not T.all_ones(k):
+                    v = T.select(T.slice_(k, i, 1), v, T.slice_(pt, i * dst_eb, dst_eb))
+                out.append(v)
+            else:
+                out.append(T.const(dst_eb, 0))
+        return T.concat(out)
+    return h
+
+
+for _w in ("128", "256", "512"):
+    TABLE["llvm.x86.avx512.mask.pmovs.qd." + _w] = _pmovs(64, 32)
+
+
+# PHADDD: horizontal pairwise add (a0+a1, a2+a3, b0+b1, b2+b3)
+def _phaddd(I, ins, args, cond):
+    a, b = args
+    out = []
+    for src in (a, b):
+        for i in range(0, src[1] // 32, 2):
+            out.append(T.nary("add", 32, [T.slice_(src, i * 32, 32), T.slice_(src, (i + 1) * 32, 32)]))
+    return T.concat(out)
+
+
+TABLE["llvm.x86.ssse3.phadd.d.128"] = _phaddd
